@@ -720,6 +720,10 @@ var formatters = []formatter{
 	{"custom(ns_method)", func(ns, m string) string { return ns + "_" + m }},
 }
 
+type decoy struct{}
+
+func (*decoy) Trap() {}
+
 type env struct {
 	h       *H
 	ts      *httptest.Server
@@ -736,6 +740,14 @@ func newEnv(f formatter, transports []string, specs []spec) (*env, error) {
 		jsonrpc.WithParamDecoder(new(Pt), decPt),
 	)
 	srv.Register(namespace, e.h)
+	// Every method name of the matrix is also registered as an ALIAS of a decoy method in another
+	// namespace. A direct name must win over an alias of the same spelling, so on a correct
+	// library this changes nothing; if dispatch ever prefers the alias, the addressed handler
+	// does not run and the oracle reports it.
+	srv.Register("Decoy", &decoy{})
+	for i := range specs {
+		srv.AliasMethod(f.fn(namespace, specs[i].Name), f.fn("Decoy", "Trap"))
+	}
 	e.ts = httptest.NewServer(srv)
 	addr := e.ts.Listener.Addr().String()
 	for _, tr := range transports {
